@@ -363,3 +363,96 @@ func TestC13_DLEQ(t *testing.T) {
 	ev := evFor("C13")
 	rcheck(t, 800, 160000, func(t *rapid.T) { c13DLEQ(t, ev) })
 }
+
+// c13Batch: several dealers share their secrets with the same trustees; trustee j decrypts the shares
+// meant for it in ONE DecShareBatch call, some of them tampered.  The batch must keep exactly the
+// correct ones, decrypt them like DecShare does, and leave the caller's slices as they were (the
+// trustee goes on using them: to tell which dealer was dropped, to verify, to recover).
+func c13Batch(t *rapid.T, ev *evProp) {
+	suite, gi := genPVSSSuite(t)
+	g := gi.G
+	n := rapid.IntRange(2, 6).Draw(t, "n")
+	th := rapid.IntRange(1, n).Draw(t, "t")
+	m := rapid.IntRange(2, 5).Draw(t, "dealers")
+	H := nonzeroPoint(t, gi, "H")
+	G := g.Point().Base()
+	ks := xofStream(genSeed(t, "keys"))
+	x := make([]kyber.Scalar, n)
+	X := make([]kyber.Point, n)
+	for i := range x {
+		x[i] = g.Scalar().Add(g.Scalar().Pick(ks), g.Scalar().One())
+		X[i] = g.Point().Mul(x[i], nil)
+	}
+	j := rapid.IntRange(0, n-1).Draw(t, "trustee")
+	ctx := fmt.Sprintf("pvss batch group=%s t=%d n=%d dealers=%d trustee=%d", gi.Name, th, n, m, j)
+	key := func(w string) string { return "C13/pvss/" + gi.Name + "/" + w }
+	var bX, bsH []kyber.Point
+	var bgc []kyber.Scalar
+	var bE []*pvss.PubVerShare
+	good := make([]bool, m)
+	for d := 0; d < m; d++ {
+		enc, pub, err := pvss.EncShares(suite, H.P, X, g.Scalar().Pick(ks), uint32(th))
+		if err != nil {
+			violationOrKnown(t, ev, key("EncShares"), "EncShares failed: %v\n%s", err, ctx)
+			return
+		}
+		e := enc[j]
+		good[d] = true
+		if rapid.IntRange(0, 2).Draw(t, fmt.Sprintf("bad%d", d)) == 0 {
+			e = copyPVS(enc[j])
+			mutateField(t, gi, e, fmt.Sprintf("mut%d", d))
+			good[d] = false
+		}
+		bX, bsH, bgc, bE = append(bX, X[j]), append(bsH, pub.Eval(uint32(j)).V), append(bgc, enc[0].P.C), append(bE, e)
+	}
+	snapX, snapS, snapE := append([]kyber.Point(nil), bX...), append([]kyber.Point(nil), bsH...), append([]*pvss.PubVerShare(nil), bE...)
+	encBytes := make([]string, m)
+	for d := range bE {
+		encBytes[d] = pointHex(bE[d].S.V)
+	}
+	K, E, D, err := pvss.DecShareBatch(suite, H.P, bX, bsH, x[j], bgc, bE)
+	if err != nil {
+		violationOrKnown(t, ev, key("DecShareBatch"), "DecShareBatch failed: %v\n%s", err, ctx)
+		return
+	}
+	want := 0
+	for d := 0; d < m; d++ {
+		if !good[d] {
+			continue
+		}
+		if want >= len(D) || E[want] != snapE[d] || !K[want].Equal(X[j]) {
+			violationOrKnown(t, ev, key("DecShareBatch"), "the batch result does not list the correct share of dealer %d at position %d (good=%v, %d results)\n%s", d, want, good, len(D), ctx)
+			return
+		}
+		single, err := pvss.DecShare(suite, H.P, X[j], snapS[d], x[j], bgc[d], snapE[d])
+		if err != nil || !single.S.V.Equal(D[want].S.V) {
+			violationOrKnown(t, ev, key("DecShareBatch"), "batch decryption of dealer %d's share differs from DecShare (err=%v)\n%s", d, err, ctx)
+		}
+		if err := pvss.VerifyDecShare(suite, G, X[j], snapE[d], D[want]); err != nil {
+			violationOrKnown(t, ev, key("DecShareBatch"), "decrypted share of dealer %d does not verify: %v\n%s", d, err, ctx)
+		}
+		want++
+	}
+	if want != len(D) || len(K) != len(D) || len(E) != len(D) {
+		violationOrKnown(t, ev, key("DecShareBatch"), "the batch kept %d shares, %d are correct (good=%v)\n%s", len(D), want, good, ctx)
+	}
+	// the caller's slices are what they were
+	for d := 0; d < m; d++ {
+		if bX[d] != snapX[d] || bsH[d] != snapS[d] || bE[d] != snapE[d] || pointHex(bE[d].S.V) != encBytes[d] {
+			violationOrKnown(t, ev, key("DecShareBatch-input-disturbed"), "DecShareBatch changed the caller's slices at position %d (good=%v)\n%s", d, good, ctx)
+			break
+		}
+	}
+	nbad := 0
+	for _, ok := range good {
+		if !ok {
+			nbad++
+		}
+	}
+	ev.Case(nbad > 0, ctx+fmt.Sprintf(" good=%v", good), "pvss-batch", fmt.Sprintf("pvss-batch-bad:%d", nbad))
+}
+
+func TestC13_Batch(t *testing.T) {
+	ev := evFor("C13")
+	rcheck(t, 300, 40000, func(t *rapid.T) { c13Batch(t, ev) })
+}
